@@ -412,6 +412,10 @@ impl<'a, K: KeyT, S: Sut<K>> Runner<'a, K, S> {
     /// panics, run the operation, then keep using the cache (lookups of every key, full observation,
     /// purge) and finally drop it.
     pub fn run_fault_state(&mut self, path: &[Value], ops: &[Value], max_per_kind: u64) {
+        self.run_fault_state_lim(path, ops, max_per_kind, usize::MAX)
+    }
+    /// the same with at most `probe_keys` keys probed after the fault (large key universes)
+    pub fn run_fault_state_lim(&mut self, path: &[Value], ops: &[Value], max_per_kind: u64, probe_keys: usize) {
         self.stats.states += 1;
         let mut ops: Vec<Value> = ops.to_vec();
         ops.push(json!({"op":"clone_drop"}));
@@ -450,7 +454,7 @@ impl<'a, K: KeyT, S: Sut<K>> Runner<'a, K, S> {
                     }
                     self.finish_event(ev, &c, &mut ids, false);
                     // keep using the cache: every key, then purge
-                    let mut probes: Vec<Value> = self.uni.iter().map(|&k| json!({"op":"get","k":k})).collect();
+                    let mut probes: Vec<Value> = self.uni.iter().take(probe_keys).map(|&k| json!({"op":"get","k":k})).collect();
                     probes.push(json!({"op":"put","k": self.uni[0], "v": 1}));
                     probes.push(json!({"op":"purge"}));
                     for p in &probes {
@@ -717,7 +721,24 @@ pub fn run_driver<K: KeyT, S: Sut<K>>(
                 let mut f = std::fs::OpenOptions::new().create(true).append(true).open(p).unwrap();
                 writeln!(f, "{}", json!({"sid": r.sid, "hist": h})).unwrap();
             }
-            r.run_hist(&h);
+            if r.fl.faults {
+                // C18 on a LARGE state: the history is the path; panics are injected into one operation of every name
+                // (with a random key), at the first three user-code calls of every kind; a few keys are probed afterwards
+                let mut names: Vec<String> = ops.iter().filter_map(|o| o["op"].as_str().map(|s| s.to_string())).filter(|s| s != "ro").collect();
+                names.sort();
+                names.dedup();
+                let mut chosen: Vec<Value> = vec![];
+                for nm in &names {
+                    let cands: Vec<&Value> = ops.iter().filter(|o| o["op"] == nm.as_str()).collect();
+                    chosen.push(cands[rng.below(cands.len() as u64) as usize].clone());
+                    if nm.contains("put") || nm == "get" || nm == "remove" {
+                        chosen.push(cands[rng.below(cands.len() as u64) as usize].clone());
+                    }
+                }
+                r.run_fault_state_lim(&h, &chosen, 3, 6);
+            } else {
+                r.run_hist(&h);
+            }
         }
     }
     r.out.finish();
